@@ -124,6 +124,23 @@ ADDENDA7 = {
 for _k, _v in ADDENDA7.items():
     ADDENDA[_k] = ADDENDA.get(_k, '') + _v
 
+ADDENDA8 = {
+    'C01': '  Names with blanks at their ends; words with literal braces.',
+    'C04': '  Actual and reference files with the same modification time.',
+    'C07': '  Single-precision columns; SQL columns declared INT / SMALLINT / TINYINT.',
+    'C08': '  Decomposed / composed unicode values; constraint file names reused within a process.',
+    'C09': '  Sentinel date bounds judged against their documented meaning; values / nonnull / nodups as unknown kinds.',
+    'C11': "  The machine's IP address in the command's output (found and repaired D40).",
+    'C13': '  Run lengths before a class change; extra letters next to non-ASCII letters.',
+    'C14': '  Seeded calls that end in an error.',
+    'C15': '  Passes through the permutation allowance write nothing.',
+    'C16': '  upgrade_possible_ints next to a declared number column.',
+    'C17': '  A field name outside ASCII; unreadable command output is a difference from the library.',
+    'C18': '  Very long strings with a line break.',
+}
+for _k, _v in ADDENDA8.items():
+    ADDENDA[_k] = ADDENDA.get(_k, '') + _v
+
 
 def register(claim):
     claim('C10',
